@@ -94,10 +94,10 @@ class Mode:
     def number(self, name, dtype, **kw):
         """A scalar of the given numpy dtype kind (int dtypes -> integer-valued)."""
         if np.dtype(dtype).kind in "iu":
-            # integer dtypes: values the dtype can hold (int64: within 2^40, so that they and the half-integers next to them
-            # survive the float64 conversions of mixed int/float operations; beyond that IEEE rounding decides, which
-            # the real-arithmetic model does not cover)
-            lim = 2 ** 31 - 1 if np.dtype(dtype).itemsize <= 4 else 2 ** 40
+            # integer dtypes: machine integers wrap silently in numpy, mathematical integers do not.  The claim is made for
+            # integer operands whose sums, products and powers up to the third stay inside the dtype (no wrap-around):
+            # |x| <= 1000 for 4-byte and <= 10^6 for 8-byte integers.  Overflow behaviour is numpy's and outside the properties.
+            lim = 1000 if np.dtype(dtype).itemsize <= 4 else 10 ** 6
             b = {k: v for k, v in kw.items() if k in ("lo", "hi")}
             b.setdefault("lo", -lim)
             b.setdefault("hi", lim)
